@@ -148,11 +148,70 @@ def r014(ctx):
             return p_.get("k") in ("pvariant", "pconst") and p_.get("path", "").endswith(("Option::None",)) or (p_.get("k") == "pvariant" and p_["path"].endswith("Result::Err"))
         table = norm_.function_results(f, ix)
         overflow, ge = [], []
+
+        def expand(conds, depth=0):
+            """conditions with `the classification enum has this variant` replaced by the conditions that select that variant"""
+            out = [[]]
+            for c_, pol in conds:
+                alts = None
+                if c_.get("k") == "armpat" and pol and depth < 3:
+                    pp = c_["pat"]
+                    while pp.get("k") in ("pref", "pderef"):
+                        pp = pp["pat"]
+                    if pp.get("k") in ("pvariant", "pconst", "ppath") and peel(strip_try(c_["scrut"])).get("k") in ("blockexpr", "match", "if", "local"):
+                        alts = []
+                        for cs_, lf in norm_.result_table(ix, strip_try(c_["scrut"])):
+                            lf = peel(lf)
+                            lp = lf.get("path") if lf.get("k") == "def" else (callee(lf) if lf.get("k") == "ctor" else None)
+                            if lp is None:
+                                alts = None
+                                break
+                            if lp == pp.get("path"):
+                                alts.append(cs_)
+                if alts:
+                    new = []
+                    for o in out:
+                        for a_ in alts:
+                            for e_ in expand(a_, depth + 1):
+                                new.append(o + e_)
+                    out = new
+                else:
+                    out = [o + [(c_, pol)] for o in out]
+            return out
+
+        def catch_all_of_conversion(c_):
+            """`_ =>` arm of a match on the converted amount whose other arms accept `Some(..)`/`Ok(..)` under a `< width` guard:
+            the arm stands for both `conversion failed` and `amount >= width`"""
+            p_ = c_["pat"]
+            while p_.get("k") in ("pref", "pderef"):
+                p_ = p_["pat"]
+            if p_.get("k") != "pwild" or not is_conversion(c_["scrut"]):
+                return False, False
+            for m_ in ix.nodes:
+                if m_.get("k") == "match" and m_["scrut"] is c_["scrut"]:
+                    guarded = False
+                    for arm in m_["arms"]:
+                        g = arm.get("guard")
+                        if g is not None:
+                            g0 = resolve(peel(g))
+                            if g0.get("k") == "binary" and g0["op"] in ("<", ">") and (is_local(g0["r"] if g0["op"] == "<" else g0["l"], p_width)):
+                                guarded = True
+                    return True, guarded
+            return True, False
+        table2 = []
         for conds, leaf in table:
+            for cs in expand(conds):
+                table2.append((cs, leaf))
+        for conds, leaf in table2:
             if leaf.get("k") == "def" and (leaf.get("path") or "").endswith("Option::None"):
                 continue          # the rule does not apply (returns None)
             is_over = is_ge = False
             for c_, pol in conds:
+                if c_.get("k") == "armpat" and pol:
+                    o_, g_ = catch_all_of_conversion(c_)
+                    if o_ and g_:
+                        overflow.append(leaf)
+                        ge.append(leaf)
                 if c_.get("k") == "letexpr" and not pol and is_conversion(c_["init"]):
                     is_over = True
                 if c_.get("k") == "armpat" and pol and none_pat(c_["pat"]) and is_conversion(c_["scrut"]):
